@@ -8,6 +8,8 @@ L ::= ("int",) | ("str",) | ("any",) | ("none",)
     | ("optional", L)              typing.Optional[L]
     | ("arr", cat, spec)           cat[np.ndarray, spec]
     | ("arrnode", cat, spec)       cat[NodeArr, spec] - NodeArr is an array-like that is ALSO a PyTree node
+    | ("ntclass", [L...])          a typing.NamedTuple CLASS whose fields are annotated L1, L2, ...: a value matches when it
+                                   is an instance and every field matches its annotation (bindings shared, as in a tuple)
     | ("pytree", L)                PyTree[L] (structure-less, nested)
     | ("spytree", L, name, n)      PyTree[L, name] (structured, nested); values are n-tuples of L, so that the
                                    structure bound to `name` is the same wherever it occurs
@@ -44,6 +46,17 @@ INTS = {"int8", "int16", "int32", "int64"}
 CATS = {"Float": FLOATS, "Int": INTS, "Shaped": None}
 
 
+_NT_CLASSES = {}
+
+
+def nt_class(L):
+    """one NamedTuple class per description (values have to be instances of the very class in the annotation)"""
+    key = repr(L)
+    if key not in _NT_CLASSES:
+        _NT_CLASSES[key] = typing.NamedTuple(f"NTLeaf{len(_NT_CLASSES)}", [(f"f{i}", build(x)) for i, x in enumerate(L[1])])
+    return _NT_CLASSES[key]
+
+
 def build(L, cache=None):
     """real type for L. Array annotations are created fresh (each subscription is a new class)."""
     import jaxtyping
@@ -67,6 +80,8 @@ def build(L, cache=None):
         return typing.Optional[build(L[1])]
     if k == "arr":
         return getattr(jaxtyping, L[1])[np.ndarray, L[2]]
+    if k == "ntclass":
+        return nt_class(L)
     if k == "arrnode":
         return getattr(jaxtyping, L[1])[NodeArr, L[2]]
     if k == "arrnest":  # Cat[Shaped[ndarray, inner], outer]: documented to mean Cat[ndarray, "outer inner"]
@@ -108,6 +123,15 @@ def matches(x, L, s, v, flatten, label=None, nested_struct=False):
         return x is None, s, v
     if k == "tuple":
         if not isinstance(x, tuple) or len(x) != len(L[1]):
+            return False, s, v
+        s1, v1 = s, v
+        for e, Le in zip(x, L[1]):
+            ok, s1, v1 = matches(e, Le, s1, v1, flatten, label)
+            if not ok:
+                return False, s, v
+        return True, s1, v1
+    if k == "ntclass":
+        if not isinstance(x, nt_class(L)):
             return False, s, v
         s1, v1 = s, v
         for e, Le in zip(x, L[1]):
@@ -188,7 +212,7 @@ def matches(x, L, s, v, flatten, label=None, nested_struct=False):
 def has_array(L):
     if L[0] in ("arr", "arrnest", "arrnode"):
         return True
-    if L[0] in ("tuple", "union", "pep604"):
+    if L[0] in ("tuple", "union", "pep604", "ntclass"):
         return any(has_array(x) for x in L[1])
     if L[0] in ("optional", "pytree", "spytree"):
         return has_array(L[1])
@@ -201,6 +225,8 @@ def show(L):
         return {"int": "int", "str": "str", "any": "Any", "none": "None"}[k]
     if k == "tuple":
         return "tuple[" + ", ".join(show(x) for x in L[1]) + "]"
+    if k == "ntclass":
+        return "NamedTuple(" + ", ".join(show(x) for x in L[1]) + ")"
     if k == "union":
         return "Union[" + ", ".join(show(x) for x in L[1]) + "]"
     if k == "pep604":
